@@ -42,6 +42,9 @@ func runC17P(s *kernel.Sim) {
 	attempts := tp.Range(1, 4)
 	cooldown := tp.Range(0, 3)
 	mult := tp.Range(1, 3)
+	if tp.Chance(1, 5) {
+		mult = 0 // cooldown_multiplier left out of the remedy: cool-downs shrink to zero
+	}
 	nOps := tp.Range(5, 40)
 	s.Knobs["attempts"], s.Knobs["cooldown_s"], s.Knobs["multiplier"], s.Knobs["ops"] = attempts, cooldown, mult, nOps
 	cfg := &sharedConfig.RetryConfig{Attempts: attempts, InitialCooldownSeconds: cooldown, CooldownMultiplier: mult,
@@ -79,7 +82,7 @@ func runC17P(s *kernel.Sim) {
 		}
 		// clock move: small, or around the state's time-to-live
 		now := s.Now()
-		targets := []time.Duration{now + time.Millisecond, now + time.Duration(1+tp.Choose(3000))*time.Millisecond}
+		targets := []time.Duration{now, now + time.Millisecond, now + time.Duration(1+tp.Choose(3000))*time.Millisecond} // also: at once (a client that does not wait)
 		if c.open && c.ttl > 0 {
 			e := c.last + c.ttl
 			if e > now {
